@@ -41,7 +41,7 @@ class Parities:
 
     def to_dict(self) -> dict:
         data: Dict[str, Any] = {"values": convert_array_to_dict(self.values)}
-        if self.correlations:
+        if self.correlations is not None:
             data["correlations"] = [
                 convert_array_to_dict(arr) for arr in self.correlations
             ]
@@ -50,7 +50,7 @@ class Parities:
     @classmethod
     def from_dict(cls, data: dict):
         values = convert_dict_to_array(data["values"])
-        if data.get("correlations"):
+        if data.get("correlations") is not None:
             correlations: Optional[List] = [
                 convert_dict_to_array(arr) for arr in data["correlations"]
             ]
